@@ -75,6 +75,16 @@ func (d *PathDecoder) fileByName(name string) (*hcl.File, error) {
 	return f, nil
 }
 
+// bodyForFile returns the body of a file for queries which concern
+// the whole file (as opposed to a particular position in it)
+func (d *PathDecoder) bodyForFile(name string, f *hcl.File) (*hclsyntax.Body, error) {
+	body, isHcl := f.Body.(*hclsyntax.Body)
+	if !isHcl {
+		return nil, &UnknownFileFormatError{Filename: name}
+	}
+	return body, nil
+}
+
 func (d *PathDecoder) bodyForFileAndPos(name string, f *hcl.File, pos hcl.Pos) (*hclsyntax.Body, error) {
 	body, isHcl := f.Body.(*hclsyntax.Body)
 	if !isHcl {
